@@ -155,7 +155,6 @@ theorem curr_eq (s : Active) (h : s.base + s.buf.length < top) : s.curr = s.base
 /-- one statement: the machine step is matched by the `pass2` step -/
 theorem step_rel (st st' : State) (s : Stmt) (c : Option Nat) (im : Img)
     (hr : Rel st st.tasks c im) (hwf : s.wf = true)
-    (hal : ∀ x n, c = some x → s = .align n → x < top ∨ size x (.align n) = 0)
     (h : step st s = .ok st') :
     ∃ im', (∀ r, pass2 c im (s :: r) = pass2 (next c s) im' r) ∧ Rel st' st'.tasks (next c s) im' ∧
       (∀ a, (im.get a).isSome = true → im'.get a = im.get a) := by
@@ -253,11 +252,7 @@ theorem step_rel (st st' : State) (s : Stmt) (c : Option Nat) (im : Img)
         · rename_i hoff
           cases h
           have hsz : size (s.base + s.buf.length) (.align n) = 0 := by
-            by_cases hlt : s.base + s.buf.length < top
-            · rw [curr_eq s hlt] at hoff; rw [size_align, if_neg hn0, if_pos hoff]
-            · rcases hal _ n rfl rfl with h1 | h1
-              · exact absurd h1 hlt
-              · exact h1
+            rw [size_align, if_neg hn0, if_pos hoff]
           have hnext : next (some (s.base + s.buf.length)) (.align n) = some (s.base + s.buf.length) := by
             simp only [next, Option.map_some, hsz, Nat.add_zero]
           rw [hnext]
@@ -270,17 +265,12 @@ theorem step_rel (st st' : State) (s : Stmt) (c : Option Nat) (im : Img)
           obtain ⟨s', hact', hfit, rfl⟩ := append_ok st st' _ h
           rw [hact] at hact'; cases hact'
           rw [length_placeholder] at hfit
-          have hmod : s.curr % n < n := Nat.mod_lt _ (by omega)
-          have hlt : s.base + s.buf.length < top := by omega
-          have hcur := curr_eq s hlt
-          rw [hcur] at hoff hmod
           have hsz : size (s.base + s.buf.length) (.align n) = n - (s.base + s.buf.length) % n := by
             rw [size_align, if_neg hn0, if_neg hoff]
           obtain ⟨r1, r2⟩ := rel_append st st.tasks st.tasks _ im s
             (placeholder (n - (s.base + s.buf.length) % n)) (placeholder (n - (s.base + s.buf.length) % n))
-            hr hact (by rw [length_placeholder, ← hcur]; exact hfit) rfl (fun t ht => ht)
+            hr hact (by rw [length_placeholder]; exact hfit) rfl (fun t ht => ht)
             (fun t ht => Or.inl ht) (Or.inl rfl)
-          rw [hcur]
           refine ⟨im.put _ (placeholder (n - (s.base + s.buf.length) % n)), fun r => ?_, ?_, r2⟩
           · show pass2 (some (s.base + s.buf.length + (placeholder (size (s.base + s.buf.length) (.align n))).length))
               (im.put (s.base + s.buf.length) (placeholder (size (s.base + s.buf.length) (.align n)))) r = _
